@@ -83,8 +83,8 @@ FaultKind(t) == CASE t = "eof" -> "UnexpectedSocketClose"
 \* remaining events of the batch, and nothing in the trace marks that moment.
 CanFire(x) == ~x.gone /\ (FaultAtHead(x) \/ st.pendw \/ (x.fatal = "" /\ Done(x)))
 Fire(x) == IF ~CanFire(x) THEN x
-           ELSE IF FaultAtHead(x) THEN Fatal(x, FaultKind(Head(x.srvq).type))
-           ELSE IF st.pendw THEN Fatal(x, "IoErrorWritingSocket")
+           ELSE IF FaultAtHead(x) THEN Fail(x, FaultKind(Head(x.srvq).type))
+           ELSE IF st.pendw THEN Fail(x, "IoErrorWritingSocket")
            ELSE Exit(x)
 
 -----------------------------------------------------------------------------
@@ -582,7 +582,9 @@ TIo ==
            kind == IF e.ev = "write" THEN (IF e.res = "error" THEN "IoErrorWritingSocket" ELSE "")
                    ELSE IF e.res = "eof" THEN "UnexpectedSocketClose"
                    ELSE IF e.res = "reset" THEN "IoErrorReadingSocket" ELSE ""
-           w2 == IF kind # "" THEN Fatal(w, kind) ELSE w
+           \* (a transport error met when the connection is already in its final state - the peer
+           \* dropped the socket right behind its last frame - is not an error any more)
+           w2 == IF kind # "" THEN Fail(w, kind) ELSE w
        IN /\ w' = w2
           /\ st' = IF kind = "" THEN st
                     ELSE [IoStep(w, w2) EXCEPT !.pendw = IF kind = "IoErrorWritingSocket" THEN FALSE ELSE @]
@@ -595,7 +597,7 @@ THb ==
     /\ IsEv("hb")
     /\ LET e == Rec[l]
            dies == e.rx = 1 /\ e.expired = 1
-           w2 == IF dies THEN Fatal(w, "MissedServerHeartbeats") ELSE w
+           w2 == IF dies THEN Fail(w, "MissedServerHeartbeats") ELSE w
        IN /\ w' = w2
           /\ st' = IoStep(w, w2)
     /\ UNCHANGED <<ops, seen>>
